@@ -197,6 +197,11 @@ def run_case(case):
         def probe(self, token):
             entry('probe', self.world.uid, token=token)
 
+    @desper.event_handler('on_update')
+    class Bystander:
+        def on_update(self, dt):
+            entry('on_update', self.uid)
+
     def coroutine(world):
         while True:
             entry('coroutine_step', world.uid)
@@ -214,6 +219,10 @@ def run_case(case):
         world.add_processor(IssuerProc())
         world.add_processor(ProcZ())
         world.create_entity(Logger())
+        for _ in range(2):
+            other = Bystander()
+            other.uid = world.uid
+            world.create_entity(other)
         world.get_processor(desper.CoroutineProcessor).start(coroutine(world))
 
     class LH(desper.WorldHandle):
